@@ -746,3 +746,199 @@ pub fn meta_failure_verdicts(m: &MetaFailure) -> Vec<(bool, Value)> {
     }
     v
 }
+
+
+// ------------------------------------------------------------------ directed: a merge that outlives its writer
+/// Writer 1 starts a merge of its committed segments and is dropped (or rolled back) while the merge thread is parked at
+/// its first file creation; writer 2 commits one more document; then the merge is released.  The old writer's merge must
+/// not publish anything: readers and a freshly opened Index keep seeing writer 2's commit.
+/// Returns (ok, description) verdicts.
+pub fn merge_outlives_writer(rollback_instead_of_drop: bool) -> Vec<(bool, Value)> {
+    use std::sync::{Arc, Condvar, Mutex};
+    let mut v = vec![];
+    let d = json!({"directed": "writer 1 starts a merge and is dropped / rolled back while the merge thread is parked; writer 2 commits; the merge is released", "rollback": rollback_instead_of_drop});
+    let vd = VerifDirectory::new();
+    let (schema, f) = schema();
+    let gate: Arc<(Mutex<(bool, bool)>, Condvar)> = Arc::new((Mutex::new((false, false)), Condvar::new())); // (parked, released)
+    {
+        let gate = gate.clone();
+        vd.set_hook(Some(Arc::new(move |_vd, _seq, kind, path| {
+            if *kind != OpKind::Create || path.starts_with('.') { return; }
+            if !std::thread::current().name().map(|n| n.starts_with("merge_thread")).unwrap_or(false) { return; }
+            let (m, cv) = &*gate;
+            let mut g = m.lock().unwrap();
+            if g.0 { return; } // only the first creation of the first merge parks
+            g.0 = true;
+            cv.notify_all();
+            while !g.1 { g = cv.wait(g).unwrap(); }
+        })));
+    }
+    let r = guarded(|| -> tantivy::Result<()> {
+        let index = Index::create(vd.clone(), schema.clone(), IndexSettings::default())?;
+        let mut w1: IndexWriter<TantivyDocument> = index.writer_with_num_threads(1, 15_000_000)?;
+        w1.set_merge_policy(Box::new(NoMergePolicy));
+        w1.add_document(doc!(f.id => 1u64, f.tag => "t0", f.body => "a"))?;
+        w1.commit()?;
+        w1.add_document(doc!(f.id => 2u64, f.tag => "t1", f.body => "b"))?;
+        w1.commit()?;
+        let reader: tantivy::IndexReader = index.reader_builder().reload_policy(ReloadPolicy::Manual).try_into()?;
+        let ids = index.searchable_segment_ids()?;
+        let _merge = w1.merge(&ids);
+        {   // wait until the merge thread is parked (or give up: the scenario then degenerates to a plain history)
+            let (m, cv) = &*gate;
+            let g = m.lock().unwrap();
+            let _ = cv.wait_timeout_while(g, std::time::Duration::from_secs(20), |g| !g.0).unwrap();
+        }
+        let parked = gate.0.lock().unwrap().0;
+        let mut w2 = if rollback_instead_of_drop { w1.rollback()?; w1 } else { drop(w1); index.writer_with_num_threads(1, 15_000_000)? };
+        w2.set_merge_policy(Box::new(NoMergePolicy));
+        w2.add_document(doc!(f.id => 3u64, f.tag => "t2", f.body => "c"))?;
+        w2.commit()?;
+        reader.reload()?;
+        let want: BTreeSet<u64> = [1u64, 2, 3].into_iter().collect();
+        let before = searcher_ids(&reader.searcher());
+        v.push((before.as_ref().ok() == Some(&want), json!({"what": "reader does not show writer 2's commit", "got": format!("{before:?}"), "case": d})));
+        { let (m, cv) = &*gate; m.lock().unwrap().1 = true; cv.notify_all(); }
+        // let the released merge run to its end (its thread belongs to the dead updater: nothing to join)
+        let t0 = std::time::Instant::now();
+        let mut last = vd.log_len();
+        while t0.elapsed() < std::time::Duration::from_secs(10) {
+            std::thread::sleep(std::time::Duration::from_millis(120));
+            let now = vd.log_len();
+            if now == last { break; }
+            last = now;
+        }
+        reader.reload()?;
+        let after = searcher_ids(&reader.searcher());
+        v.push((after.as_ref().ok() == Some(&want), json!({"what": "after the dead writer's merge ended, a reload moved back / lost writer 2's commit (the old updater rewrote meta.json)", "got": format!("{after:?}"), "merge_was_parked": parked, "case": d})));
+        let fresh = Index::open(vd.clone()).map_err(|e| tantivy::TantivyError::InternalError(format!("{e}")))?;
+        let fr = read_ids(&fresh);
+        v.push((fr.as_ref().ok() == Some(&want), json!({"what": "after the dead writer's merge ended, a freshly opened Index does not hold writer 2's commit", "got": format!("{fr:?}"), "merge_was_parked": parked, "case": d})));
+        w2.add_document(doc!(f.id => 4u64, f.tag => "t3", f.body => "d"))?;
+        w2.commit()?;
+        w2.wait_merging_threads()?;
+        let want4: BTreeSet<u64> = [1u64, 2, 3, 4].into_iter().collect();
+        let fin = read_ids(&fresh);
+        v.push((fin.as_ref().ok() == Some(&want4), json!({"what": "writer 2 cannot continue normally after the dead writer's merge ended", "got": format!("{fin:?}"), "case": d})));
+        Ok(())
+    });
+    { let (m, cv) = &*gate; m.lock().unwrap().1 = true; cv.notify_all(); }
+    vd.set_hook(None);
+    match r { Ok(Ok(())) => {}, Ok(Err(e)) => v.push((false, json!({"what": "directed merge-outlives-writer scenario failed", "err": e.to_string(), "case": d}))), Err(p) => v.push((false, json!({"what": "directed merge-outlives-writer scenario panicked", "panic": p, "case": d}))) }
+    v
+}
+
+/// delete_all_documents() left uncommitted, then two uncommitted segments merged by the policy, no commit: readers (and a
+/// freshly opened Index, and the next writer) must keep seeing the last commit.
+pub fn uncommitted_delete_all_then_policy_merge() -> Vec<(bool, Value)> {
+    let mut v = vec![];
+    let d = json!({"directed": "commit a b c; eager merge policy; delete_all_documents() NOT committed; two segments flushed by prepare_commit() (dropped, not committed); wait_merging_threads() without commit"});
+    let vd = VerifDirectory::new();
+    let (schema, f) = schema();
+    let r = guarded(|| -> tantivy::Result<()> {
+        let index = Index::create(vd.clone(), schema.clone(), IndexSettings::default())?;
+        let mut w: IndexWriter<TantivyDocument> = index.writer_with_num_threads(1, 15_000_000)?;
+        w.set_merge_policy(Box::new(NoMergePolicy));
+        for (i, t) in ["t0", "t1", "t2"].iter().enumerate() { w.add_document(doc!(f.id => (i + 1) as u64, f.tag => *t, f.body => "x"))?; }
+        w.commit()?;
+        let reader: tantivy::IndexReader = index.reader_builder().reload_policy(ReloadPolicy::Manual).try_into()?;
+        let held = reader.searcher();
+        let mut p = LogMergePolicy::default();
+        p.set_min_num_segments(2);
+        p.set_min_layer_size(1);
+        w.set_merge_policy(Box::new(p));
+        w.delete_all_documents()?;
+        w.add_document(doc!(f.id => 10u64, f.tag => "t3", f.body => "y"))?;
+        drop(w.prepare_commit()?);
+        w.add_document(doc!(f.id => 11u64, f.tag => "t4", f.body => "z"))?;
+        drop(w.prepare_commit()?);
+        w.wait_merging_threads()?;
+        let want: BTreeSet<u64> = [1u64, 2, 3].into_iter().collect();
+        let h = searcher_ids(&held);
+        v.push((h.as_ref().ok() == Some(&want), json!({"what": "a held searcher changed its answer", "got": format!("{h:?}"), "case": d})));
+        reader.reload()?;
+        let r1 = searcher_ids(&reader.searcher());
+        v.push((r1.as_ref().ok() == Some(&want), json!({"what": "a reload shows uncommitted work (an uncommitted delete_all_documents / uncommitted segments were published by a merge)", "got": format!("{r1:?}"), "case": d})));
+        let fresh = Index::open(vd.clone()).map_err(|e| tantivy::TantivyError::InternalError(format!("{e}")))?;
+        let fr = read_ids(&fresh);
+        v.push((fr.as_ref().ok() == Some(&want), json!({"what": "a freshly opened Index shows uncommitted work", "got": format!("{fr:?}"), "case": d})));
+        let mut w2: IndexWriter<TantivyDocument> = index.writer_with_num_threads(1, 15_000_000)?;
+        w2.add_document(doc!(f.id => 20u64, f.tag => "t5", f.body => "f"))?;
+        w2.commit()?;
+        w2.wait_merging_threads()?;
+        let want2: BTreeSet<u64> = [1u64, 2, 3, 20].into_iter().collect();
+        let fin = read_ids(&fresh);
+        v.push((fin.as_ref().ok() == Some(&want2), json!({"what": "the next writer does not start from the last commit", "got": format!("{fin:?}"), "case": d})));
+        Ok(())
+    });
+    match r { Ok(Ok(())) => {}, Ok(Err(e)) => v.push((false, json!({"what": "directed delete_all scenario failed", "err": e.to_string(), "case": d}))), Err(p) => v.push((false, json!({"what": "directed delete_all scenario panicked", "panic": p, "case": d}))) }
+    v
+}
+
+
+/// A merge of committed segments is in flight (its thread parked at its first file creation) while a delete is committed;
+/// then ONE I/O error hits the creation of the merged segment's delete file at the end of the merge.  The merge must be
+/// reported as failed (or be complete), and storage must show the committed delete either way.
+pub fn merge_end_fault_after_concurrent_delete() -> Vec<(bool, Value)> {
+    use std::sync::{Arc, Condvar, Mutex};
+    let mut v = vec![];
+    let d = json!({"directed": "two commits; a merge parked at its first file creation; delete_term + commit during the merge; ONE failing creation of a .del file when the merge ends"});
+    let vd = VerifDirectory::new();
+    let (schema, f) = schema();
+    let gate: Arc<(Mutex<(bool, bool)>, Condvar)> = Arc::new((Mutex::new((false, false)), Condvar::new()));
+    {
+        let gate = gate.clone();
+        vd.set_hook(Some(Arc::new(move |_vd, _seq, kind, path| {
+            if *kind != OpKind::Create || path.starts_with('.') { return; }
+            if !std::thread::current().name().map(|n| n.starts_with("merge_thread")).unwrap_or(false) { return; }
+            let (m, cv) = &*gate;
+            let mut g = m.lock().unwrap();
+            if g.0 { return; }
+            g.0 = true;
+            cv.notify_all();
+            while !g.1 { g = cv.wait(g).unwrap(); }
+        })));
+    }
+    let r = guarded(|| -> tantivy::Result<()> {
+        let index = Index::create(vd.clone(), schema.clone(), IndexSettings::default())?;
+        let mut w: IndexWriter<TantivyDocument> = index.writer_with_num_threads(1, 15_000_000)?;
+        w.set_merge_policy(Box::new(NoMergePolicy));
+        w.add_document(doc!(f.id => 1u64, f.tag => "ta", f.body => "a"))?;
+        w.add_document(doc!(f.id => 2u64, f.tag => "tb", f.body => "b"))?;
+        w.commit()?;
+        w.add_document(doc!(f.id => 3u64, f.tag => "tc", f.body => "c"))?;
+        w.add_document(doc!(f.id => 4u64, f.tag => "td", f.body => "d"))?;
+        w.commit()?;
+        let ids = index.searchable_segment_ids()?;
+        let merge = w.merge(&ids);
+        { let (m, cv) = &*gate; let g = m.lock().unwrap(); let _ = cv.wait_timeout_while(g, std::time::Duration::from_secs(20), |g| !g.0).unwrap(); }
+        let parked = gate.0.lock().unwrap().0;
+        w.delete_term(Term::from_field_text(f.tag, "ta"));
+        w.commit()?;
+        let want: BTreeSet<u64> = [2u64, 3, 4].into_iter().collect();
+        vd.set_fault_once(OpKind::Create, ".del");
+        { let (m, cv) = &*gate; m.lock().unwrap().1 = true; cv.notify_all(); }
+        let merge_res = merge.wait();
+        let fired = vd.faults_fired();
+        let fresh = Index::open(vd.clone()).map_err(|e| tantivy::TantivyError::InternalError(format!("{e}")))?;
+        let got = read_ids(&fresh);
+        v.push((got.as_ref().ok() == Some(&want), json!({"what": "after a merge whose end hit an I/O error the storage does not show the last commit (a committed delete was lost / documents came back)", "got": format!("{got:?}"), "merge_reported_error": merge_res.is_err(), "fault_fired": fired, "merge_was_parked": parked, "case": d})));
+        if fired == 1 && merge_res.is_ok() {
+            // not reported: then the merge must be complete -- one segment holding exactly the committed documents
+            let n = index.searchable_segment_ids().map(|x| x.len()).unwrap_or(0);
+            v.push((n == 1 && got.as_ref().ok() == Some(&want), json!({"what": "an I/O error at the end of a merge was swallowed: the merge reports success but its result is not the committed content", "segments": n, "case": d})));
+        }
+        // the same writer continues
+        w.add_document(doc!(f.id => 5u64, f.tag => "te", f.body => "e"))?;
+        w.commit()?;
+        w.wait_merging_threads()?;
+        let want2: BTreeSet<u64> = [2u64, 3, 4, 5].into_iter().collect();
+        let fin = read_ids(&fresh);
+        v.push((fin.as_ref().ok() == Some(&want2), json!({"what": "the writer cannot continue normally after a merge that failed at its end", "got": format!("{fin:?}"), "case": d})));
+        Ok(())
+    });
+    { let (m, cv) = &*gate; m.lock().unwrap().1 = true; cv.notify_all(); }
+    vd.set_hook(None);
+    match r { Ok(Ok(())) => {}, Ok(Err(e)) => v.push((false, json!({"what": "directed merge-end-fault scenario failed", "err": e.to_string(), "case": d}))), Err(p) => v.push((false, json!({"what": "directed merge-end-fault scenario panicked", "panic": p, "case": d}))) }
+    v
+}
